@@ -349,7 +349,7 @@ def simulateColorblindness [ScT α] (c : Color α) (t : CbType) : Color α :=
 /-- `Color::to_gray` (lib.rs:621). -/
 def toGray [ScT α] (c : Color α) : Color α :=
   let p := toLch c
-  let gray := desaturate (fromLch p.x 0.0 0.0 1.0) 1.0
+  let gray := desaturate (fromLch p.x 0.0 0.0 c.alpha) 1.0
   { gray with hue := c.hue }
 
 /-- `Color::brightness` (lib.rs:638). -/
@@ -378,7 +378,7 @@ def textColor [ScT α] (c : Color α) : Color α :=
 
 /-- `composite_channel` in `Color::composite` (lib.rs:745). -/
 def compositeChannel [Sc α] (cA : UInt8) (aA : α) (cB : UInt8) (aB : α) (aO : α) : UInt8 :=
-  toU8 (floor ((u8f cA * aA + u8f cB * aB * (1.0 - aA)) / aO))
+  toU8 (round ((u8f cA * aA + u8f cB * aB * (1.0 - aA)) / aO))
 
 /-- `Color::composite` (lib.rs:728): `source` over `backdrop`. -/
 def composite [Sc α] (backdrop source : Color α) : Color α :=
